@@ -780,4 +780,378 @@ theorem nodupB_iff (l : List Id) : nodupB l = true ↔ l.Nodup := by
   | nil => simp [nodupB]
   | cons a l ih => simp [nodupB, ih]
 
+/-! ### the collected transaction is children-first and free of duplicates -/
+
+def TxnStore.ids (t : TxnStore) : List Id := t.map (fun e => e.1)
+def TxnStore.puts (t : TxnStore) : List Op := t.map (fun e => Op.put e.1 e.2.2 true)
+
+theorem TxnStore.puts_ids (t : TxnStore) : t.puts.map Op.id = t.ids := by
+  simp [TxnStore.puts, TxnStore.ids, Op.id, Function.comp_def]
+
+theorem TxnStore.oid?_none (t : TxnStore) (i : Id) : t.oid? i = none ↔ i ∉ t.ids := by
+  induction t with
+  | nil => simp [TxnStore.oid?, TxnStore.ids]
+  | cons e t ih =>
+    obtain ⟨j, o, d⟩ := e
+    simp only [TxnStore.oid?, TxnStore.ids, List.map_cons, List.mem_cons, not_or] at ih ⊢
+    by_cases h : j = i
+    · simp [h]
+    · have : ¬ i = j := fun e => h e.symm
+      simp [h, this, ih]
+
+theorem TxnStore.oid?_some (t : TxnStore) (i : Id) (o : Nat) (h : t.oid? i = some o) : i ∈ t.ids := by
+  apply Classical.byContradiction
+  intro hn
+  rw [← TxnStore.oid?_none] at hn
+  rw [hn] at h
+  cases h
+
+theorem applyOpsG_append (g : G) (a b : List Op) : applyOpsG g (a ++ b) = applyOpsG (applyOpsG g a) b := by
+  simp [applyOpsG, List.foldl_append]
+
+theorem WFops_append : ∀ (a b : List Op) (g : G), WFops g (a ++ b) ↔ WFops g a ∧ WFops (applyOpsG g a) b := by
+  intro a
+  induction a with
+  | nil => intro b g; simp [WFops, applyOpsG]
+  | cons op a ih =>
+    intro b g
+    simp only [List.cons_append, WFops, ih, applyOpsG_cons, and_assoc]
+
+/-- the value at an identifier the calls touch does not depend on the view they start from -/
+theorem applyOpsG_mem_indep : ∀ (ops : List Op) (g g₂ : G) (k : Id), k ∈ ops.map Op.id →
+    applyOpsG g ops k = applyOpsG g₂ ops k := by
+  intro ops
+  induction ops with
+  | nil => intro g g₂ k h; simp at h
+  | cons op ops ih =>
+    intro g g₂ k h
+    rw [applyOpsG_cons, applyOpsG_cons]
+    by_cases hk : k ∈ ops.map Op.id
+    · exact ih _ _ k hk
+    · rw [applyOpsG_not_mem ops _ k hk, applyOpsG_not_mem ops _ k hk]
+      simp only [List.map_cons, List.mem_cons] at h
+      rcases h with h | h
+      · subst h
+        cases op <;> simp [applyOpG, gput, gerase, Op.id]
+      · exact (hk h).elim
+
+/-- view after the collected entries were put -/
+def GT (g : G) (t : TxnStore) : G := applyOpsG g t.puts
+
+theorem GT_not_mem (g : G) (t : TxnStore) (k : Id) (h : k ∉ t.ids) : GT g t k = g k := by
+  unfold GT
+  exact applyOpsG_not_mem _ _ _ (by rw [TxnStore.puts_ids]; exact h)
+
+theorem GT_snoc (g : G) (t : TxnStore) (j : Id) (o : Nat) (d : Data) :
+    GT g (t ++ [(j, o, d)]) = gput (GT g t) j d := by
+  unfold GT
+  simp [TxnStore.puts, applyOpsG, applyOpG]
+
+theorem TxnStore.ids_snoc (t : TxnStore) (j : Id) (o : Nat) (d : Data) : (t ++ [(j, o, d)]).ids = t.ids ++ [j] := by
+  simp [TxnStore.ids]
+
+theorem TxnStore.puts_snoc (t : TxnStore) (j : Id) (o : Nat) (d : Data) :
+    (t ++ [(j, o, d)]).puts = t.puts ++ [Op.put j d true] := by
+  simp [TxnStore.puts]
+
+/-- where the erased-base view holds a document, the real view holds the same one -/
+theorem GT_erase_le (g : G) (top : Id) (t : TxnStore) (k : Id) (d : Data)
+    (h : GT (gerase g top) t k = some d) : GT g t k = some d := by
+  by_cases hk : k ∈ t.ids
+  · unfold GT at h ⊢
+    rw [applyOpsG_mem_indep _ g (gerase g top) k (by rw [TxnStore.puts_ids]; exact hk)]
+    exact h
+  · rw [GT_not_mem _ _ _ hk] at h
+    rw [GT_not_mem _ _ _ hk]
+    unfold gerase at h
+    by_cases e : k = top
+    · simp [e] at h
+    · simpa [e] using h
+
+theorem GT_erase_eq (g : G) (top : Id) (t : TxnStore) (h : top ∉ t.ids) :
+    GT (gerase g top) t = gerase (GT g t) top := by
+  funext k
+  by_cases hk : k ∈ t.ids
+  · have hne : k ≠ top := fun e => h (e ▸ hk)
+    unfold GT
+    rw [applyOpsG_mem_indep _ (gerase g top) g k (by rw [TxnStore.puts_ids]; exact hk)]
+    simp [gerase, hne]
+  · rw [GT_not_mem _ _ _ hk]
+    unfold gerase
+    by_cases e : k = top
+    · simp [e]
+    · simp [e, GT_not_mem _ _ _ hk]
+
+structure Inv (g : G) (top : Id) (t : TxnStore) : Prop where
+  new : ∀ i, i ∈ t.ids → g i = none
+  nodup : t.ids.Nodup
+  wf : WFops g t.puts
+  loads : ∀ i, i ∈ t.ids → Loads (GT (gerase g top) t) i
+
+def Ext (g : G) (top : Id) (t t' : TxnStore) : Prop :=
+  (∀ i, i ∈ t.ids → i ∈ t'.ids) ∧ (∀ r, Loads (GT (gerase g top) t) r → Loads (GT (gerase g top) t') r)
+
+theorem Ext.refl (g : G) (top : Id) (t : TxnStore) : Ext g top t t := ⟨fun _ h => h, fun _ h => h⟩
+
+theorem Ext.trans {g : G} {top : Id} {a b c : TxnStore} (h1 : Ext g top a b) (h2 : Ext g top b c) : Ext g top a c :=
+  ⟨fun i h => h2.1 i (h1.1 i h), fun r h => h2.2 r (h1.2 r h)⟩
+
+theorem Inv.nil (g : G) (top : Id) : Inv g top [] :=
+  ⟨by simp [TxnStore.ids], by simp [TxnStore.ids], by simp [TxnStore.puts, WFops], by simp [TxnStore.ids]⟩
+
+/-- entries already stored load in the view extended by new entries -/
+theorem loads_base {g : G} {top : Id} {t : TxnStore} (hI : Inv g top t) {i : Id}
+    (h : Loads (gerase g top) i) : Loads (GT (gerase g top) t) i := by
+  refine Loads.mono ?_ h
+  intro k tok refs hk
+  have hnot : k ∉ t.ids := by
+    intro hm
+    have := hI.new k hm
+    unfold gerase at hk
+    by_cases e : k = top
+    · simp [e] at hk
+    · simp [e, this] at hk
+  rw [GT_not_mem _ _ _ hnot]
+  exact hk
+
+/-- appending a new entry whose references load keeps the invariant -/
+theorem Inv.snoc {g : G} {top : Id} {t : TxnStore} (hI : Inv g top t) (j : Id) (o tok : Nat) (refs : List Id)
+    (hnew : g j = none) (hj : j ∉ t.ids) (hrefs : ∀ r, r ∈ refs → Loads (GT (gerase g top) t) r) :
+    Inv g top (t ++ [(j, o, .doc tok refs)]) ∧ Ext g top t (t ++ [(j, o, .doc tok refs)]) ∧
+      Loads (GT (gerase g top) (t ++ [(j, o, .doc tok refs)])) j := by
+  have hg'j : GT (gerase g top) t j = none := by
+    rw [GT_not_mem _ _ _ hj]
+    unfold gerase
+    by_cases e : j = top <;> simp [e, hnew]
+  have hgj : GT g t j = none := by rw [GT_not_mem _ _ _ hj]; exact hnew
+  have hmono : ∀ r, Loads (GT (gerase g top) t) r → Loads (GT (gerase g top) (t ++ [(j, o, .doc tok refs)])) r := by
+    intro r
+    refine Loads.mono ?_
+    intro k tk rs hk
+    rw [GT_snoc]
+    unfold gput
+    by_cases e : k = j
+    · rw [e, hg'j] at hk; cases hk
+    · simpa [e] using hk
+  have hloadj : Loads (GT (gerase g top) (t ++ [(j, o, .doc tok refs)])) j :=
+    Loads.mk j tok refs (by rw [GT_snoc]; simp [gput]) (fun r hr => hmono r (hrefs r hr))
+  refine ⟨⟨?_, ?_, ?_, ?_⟩, ⟨?_, hmono⟩, hloadj⟩
+  · intro i hi
+    rw [TxnStore.ids_snoc, List.mem_append, List.mem_singleton] at hi
+    rcases hi with hi | hi
+    · exact hI.new i hi
+    · rw [hi]; exact hnew
+  · rw [TxnStore.ids_snoc]
+    exact List.nodup_append.mpr ⟨hI.nodup, by simp, by
+      intro a ha b hb
+      simp only [List.mem_singleton] at hb
+      subst hb
+      intro e; subst e; exact hj ha⟩
+  · rw [TxnStore.puts_snoc, WFops_append]
+    refine ⟨hI.wf, ⟨tok, refs, rfl, ?_⟩, trivial⟩
+    intro r hr
+    refine Loads.mono ?_ (hrefs r hr)
+    intro k tk rs hk
+    have h1 := GT_erase_le g top t k _ hk
+    unfold gerase
+    by_cases e : k = j
+    · rw [e] at h1; unfold GT at hgj h1; rw [hgj] at h1; cases h1
+    · simpa [e, GT] using h1
+  · intro i hi
+    rw [TxnStore.ids_snoc, List.mem_append, List.mem_singleton] at hi
+    rcases hi with hi | hi
+    · exact hmono i (hI.loads i hi)
+    · rw [hi]; exact hloadj
+  · intro i hi
+    rw [TxnStore.ids_snoc]
+    exact List.mem_append_left _ hi
+
+/-- statement proved by mutual induction over the tree -/
+def EncOK (g : G) (top : Id) (res : Except Err (List Id × TxnStore)) (t : TxnStore) : Prop :=
+  ∀ refs t', res = .ok (refs, t') →
+    Inv g top t' ∧ Ext g top t t' ∧ ∀ r, r ∈ refs → Loads (GT (gerase g top) t') r
+
+theorem encode_ok (g : G) (top : Id) (present : Id → Bool) (hpres : ∀ i, present i = true ↔ g i ≠ none) (c : Node) :
+    ∀ t, Inv g top t → c.reusedOK (fun i => Loads (gerase g top) i) →
+      EncOK g top (encodeChild present c t) t := by
+  refine Node.rec
+    (motive_1 := fun c => ∀ t, Inv g top t → c.reusedOK (fun i => Loads (gerase g top) i) →
+      EncOK g top (encodeChild present c t) t)
+    (motive_2 := fun cs => ∀ t, Inv g top t → reusedOKs (fun i => Loads (gerase g top) i) cs →
+      EncOK g top (encodeChildren present cs t) t)
+    ?_ ?_ ?_ c
+  · -- a node
+    intro id oid tok ser reused children ih t hI hre refs t' hres
+    obtain ⟨hre1, hre2⟩ := hre
+    cases id with
+    | none =>
+      simp only [encodeChild] at hres
+      split at hres
+      · cases hres
+      · exact ih t hI hre2 refs t' hres
+    | some i =>
+      simp only [encodeChild] at hres
+      split at hres
+      · -- present in the storage
+        split at hres
+        · rename_i hp hr
+          injection hres with hres
+          injection hres with h1 h2
+          subst h1; subst h2
+          refine ⟨hI, Ext.refl _ _ _, ?_⟩
+          intro r hr'
+          simp only [List.mem_singleton] at hr'
+          subst hr'
+          exact loads_base hI (hre1 hr r rfl)
+        · cases hres
+      · rename_i hp
+        have hnew : g i = none := by
+          by_cases h : g i = none
+          · exact h
+          · exact absurd ((hpres i).mpr h) hp
+        split at hres
+        · -- already collected in this transaction
+          rename_i o ho
+          split at hres
+          · injection hres with hres
+            injection hres with h1 h2
+            subst h1; subst h2
+            refine ⟨hI, Ext.refl _ _ _, ?_⟩
+            intro r hr'
+            simp only [List.mem_singleton] at hr'
+            subst hr'
+            exact hI.loads r (TxnStore.oid?_some t r o ho)
+          · cases hres
+        · split at hres
+          · cases hres
+          · split at hres
+            · cases hres
+            · rename_i refs1 t1 henc
+              split at hres
+              · cases hres
+              · rename_i hno
+                injection hres with hres
+                injection hres with h1 h2
+                subst h1; subst h2
+                obtain ⟨hI1, hE1, hR1⟩ := ih t hI hre2 refs1 t1 henc
+                have hj : i ∉ t1.ids := by
+                  rw [← TxnStore.oid?_none]
+                  cases h : t1.oid? i with
+                  | none => rfl
+                  | some o => simp [h] at hno
+                obtain ⟨hI2, hE2, hL⟩ := hI1.snoc i oid tok refs1 hnew hj hR1
+                refine ⟨hI2, hE1.trans hE2, ?_⟩
+                intro r hr'
+                simp only [List.mem_singleton] at hr'
+                subst hr'
+                exact hL
+  · -- no children
+    intro t hI _ refs t' hres
+    simp only [encodeChildren] at hres
+    injection hres with hres
+    injection hres with h1 h2
+    subst h1; subst h2
+    exact ⟨hI, Ext.refl _ _ _, by simp⟩
+  · -- first child, then the others
+    intro c cs ihc ihcs t hI hre refs t' hres
+    obtain ⟨hre1, hre2⟩ := hre
+    simp only [encodeChildren] at hres
+    split at hres
+    · cases hres
+    · rename_i r1 t1 h1
+      split at hres
+      · cases hres
+      · rename_i r2 t2 h2
+        injection hres with hres
+        injection hres with e1 e2
+        subst e1; subst e2
+        obtain ⟨hI1, hE1, hR1⟩ := ihc t hI hre1 r1 t1 h1
+        obtain ⟨hI2, hE2, hR2⟩ := ihcs t1 hI1 hre2 r2 t2 h2
+        refine ⟨hI2, hE1.trans hE2, ?_⟩
+        intro r hr
+        rcases List.mem_append.mp hr with h | h
+        · exact hE2.2 r (hR1 r h)
+        · exact hR2 r h
+
+theorem encodeChildren_ok (g : G) (top : Id) (present : Id → Bool) (hpres : ∀ i, present i = true ↔ g i ≠ none) :
+    ∀ (cs : List Node) t, Inv g top t → reusedOKs (fun i => Loads (gerase g top) i) cs →
+      EncOK g top (encodeChildren present cs t) t := by
+  intro cs
+  induction cs with
+  | nil =>
+    intro t hI _ refs t' hres
+    simp only [encodeChildren] at hres
+    injection hres with hres
+    injection hres with h1 h2
+    subst h1; subst h2
+    exact ⟨hI, Ext.refl _ _ _, by simp⟩
+  | cons c cs ih =>
+    intro t hI hre refs t' hres
+    obtain ⟨hre1, hre2⟩ := hre
+    simp only [encodeChildren] at hres
+    split at hres
+    · cases hres
+    · rename_i r1 t1 h1
+      split at hres
+      · cases hres
+      · rename_i r2 t2 h2
+        injection hres with hres
+        injection hres with e1 e2
+        subst e1; subst e2
+        obtain ⟨hI1, hE1, hR1⟩ := encode_ok g top present hpres c t hI hre1 r1 t1 h1
+        obtain ⟨hI2, hE2, hR2⟩ := ih t1 hI1 hre2 r2 t2 h2
+        refine ⟨hI2, hE1.trans hE2, ?_⟩
+        intro r hr
+        rcases List.mem_append.mp hr with h | h
+        · exact hE2.2 r (hR1 r h)
+        · exact hR2 r h
+
+/-- the transaction collected by `PulseStorage.overwrite(top, n)` is well formed: every put is preceded by
+the puts of the entries it refers to, no identifier occurs twice -/
+theorem collect_wf' (g : G) (top : Id) (present : Id → Bool) (hpres : ∀ i, present i = true ↔ g i ≠ none)
+    (n : Node) (hre : n.reusedOK (fun i => Loads (gerase g top) i)) (ws : List (Id × Data))
+    (hc : collect present top n = .ok ws) :
+    WFops g (ws.map (fun p => Op.put p.1 p.2 true)) ∧ ((ws.map (fun p => Op.put p.1 p.2 true)).map Op.id).Nodup := by
+  have hre2 : reusedOKs (fun i => Loads (gerase g top) i) n.children := by
+    cases n; exact hre.2
+  unfold collect at hc
+  by_cases hs : (!n.ser) = true
+  · rw [if_pos hs] at hc; cases hc
+  · rw [if_neg hs] at hc
+    cases henc : encodeChildren present n.children [] with
+    | error e => rw [henc] at hc; cases hc
+    | ok res =>
+      obtain ⟨refs, t⟩ := res
+      rw [henc] at hc
+      simp only at hc
+      by_cases hno : (t.oid? top).isSome = true
+      · rw [if_pos hno] at hc; cases hc
+      · rw [if_neg hno] at hc
+        injection hc with hc
+        subst hc
+        obtain ⟨hI, _, hR⟩ := encodeChildren_ok g top present hpres n.children [] (Inv.nil g top) hre2 refs t henc
+        have htop : top ∉ t.ids := by
+          rw [← TxnStore.oid?_none]
+          cases h : t.oid? top with
+          | none => rfl
+          | some o => simp [h] at hno
+        have hops : (t.writes ++ [(top, Data.doc n.tok refs)]).map (fun p => Op.put p.1 p.2 true)
+            = t.puts ++ [Op.put top (.doc n.tok refs) true] := by
+          simp [TxnStore.writes, TxnStore.puts, Function.comp_def]
+        rw [hops]
+        constructor
+        · rw [WFops_append]
+          refine ⟨hI.wf, ⟨n.tok, refs, rfl, ?_⟩, trivial⟩
+          intro r hr
+          have := hR r hr
+          rw [GT_erase_eq g top t htop] at this
+          exact this
+        · rw [List.map_append, TxnStore.puts_ids]
+          simp only [List.map_cons, List.map_nil, Op.id]
+          exact List.nodup_append.mpr ⟨hI.nodup, by simp, by
+            intro a ha b hb
+            simp only [List.mem_singleton] at hb
+            subst hb
+            intro e; subst e; exact htop ha⟩
+
 end QP.C11
